@@ -256,3 +256,23 @@ Theorem C16_ring_obstruction_free : forall (A : Type) (size : nat) (progs : nat 
             exists e, thist (rs_thr (solo A n t s) t) = thist (rs_thr s t) ++ [e].
 Proof. exact ring_obstruction_free_lemma. Qed.
 Print Assumptions C16_ring_obstruction_free.
+
+(** several callers sharing one validator (Conc/MultiDefs.v: tasks tagged by client, the pool abstracted to the bag of
+    posted tasks, any interleaving of posting / execution / returns, any number of clients and payload lists):
+    every client that has returned got the sequential verdict of ITS OWN payloads, and no client ever throws.
+    The single-client theorems above remain the detailed model of the queues; here the point is independence. *)
+From VB Require Import Conc.MultiDefs Conc.MultiProofs.
+Theorem C16_multi_client_verdict : forall progs sched c r,
+  nth_error (mresults (mrun false progs sched (minit progs))) c = Some r ->
+  match r with MRunning => True | MRet v => client_spec progs c v | MThrown => False end.
+Proof. exact multi_client_verdict_lemma. Qed.
+Print Assumptions C16_multi_client_verdict.
+
+(** documentation: if PopValidator::clear() (called on an invalid payload) restarted the pool instead of being a
+    no-op, another client's queued checks die with the queues - its call throws although its PopData is valid *)
+Theorem C16_clear_restarts_pool_refuted :
+  let s := mrun true restart_witness_progs restart_witness_sched (minit restart_witness_progs) in
+  mresults s = [MThrown; MRet (VInvalid 0)] /\
+  seq_verdict (mk_tasks 0 0 [true; true]) false = VValid.
+Proof. exact clear_restarts_pool_refuted_lemma. Qed.
+Print Assumptions C16_clear_restarts_pool_refuted.
